@@ -180,9 +180,10 @@ class ShelxlRefine():
         if re.match(r'.*CANNOT RESOLVE (SAME|RIGU|SIMU|DELU)', out):
             print('\nWarning: Are you sure that all atoms are in the correct order?\n')
         if re.match(r'.*CANNOT\s+OPEN\s+FILE.*hkl.*', out):
+            # Only a message: run_shelxl() evaluates the exit status and the result file after the run
+            # and restores the previous res file, leaving here would skip that.
             print('*** No hkl file found! ***')
             print('*** You need a proper hkl file to run SHELXL! ***')
-            sys.exit()
         if re.match(r'.*\*\* Extinction \(EXTI\) or solvent.*', out):
             return
         if re.match(r'.*\*\* MERG code changed to 0', out):
